@@ -7,7 +7,7 @@ use crate::json::J;
 use crate::report::Report;
 use crate::rng::Rng;
 use crate::util::fnv;
-use std::net::{SocketAddr, TcpListener};
+use std::net::{SocketAddr, TcpListener, TcpStream};
 use std::time::{Duration, Instant};
 
 /// What the harness must provide: a freshly started app with the standard C20 routes
@@ -301,4 +301,115 @@ pub fn run_scenario(r: &mut Report, app: &mut dyn RunningApp, sc: &Scenario, sid
         c.conn = None;
     }
     r.nontrivial(fnv(format!("{:?}", scenario_json(sc).to_string()).as_bytes()));
+}
+
+
+/// "Until the signal is sent the server keeps serving": a burst of connections that exhausts the process's file
+/// descriptors makes `accept` fail (EMFILE) for a while. That is a transient condition: once descriptors are free again
+/// the server serves as before, and `run` has not returned, since nobody sent the signal.
+///
+/// The descriptor limit is per process, so this runs alone (after the sharded part of the workload), with the soft limit
+/// lowered to the current number of descriptors plus an ODD headroom: every accepted connection needs a client-side
+/// descriptor first, so at exhaustion there is at least one connection the server was woken for and could not accept.
+pub fn fd_exhaustion_scenario(r: &mut Report, app: &mut dyn RunningApp, replay: &[String]) {
+    #[repr(C)]
+    struct Rlimit {
+        cur: u64,
+        max: u64,
+    }
+    extern "C" {
+        fn getrlimit(resource: i32, rlim: *mut Rlimit) -> i32;
+        fn setrlimit(resource: i32, rlim: *const Rlimit) -> i32;
+    }
+    const RLIMIT_NOFILE: i32 = 7;
+    let open_fds = || std::fs::read_dir("/proc/self/fd").map(|d| d.count() as u64).unwrap_or(0);
+    let rt = app.runtime();
+    let addr = target_addr(app.addr());
+    let ask = |addr: SocketAddr| -> bool {
+        use std::io::{Read, Write};
+        let mut s = match TcpStream::connect(addr) {
+            Ok(s) => s,
+            Err(_) => return false,
+        };
+        let _ = s.write_all(b"GET /fast?id=fdx HTTP/1.1\r\nHost: hv\r\nConnection: close\r\n\r\n");
+        let _ = s.set_read_timeout(Some(Duration::from_secs(5)));
+        let mut b = Vec::new();
+        let _ = s.read_to_end(&mut b);
+        b.starts_with(b"HTTP/1.1 200")
+    };
+    r.eval();
+    r.count("fd_exhaustion_scenarios", 1);
+    r.nontrivial(0x20fd_0000 + fnv(rt.as_bytes()));
+    if !ask(addr) {
+        r.inconclusive(format!("[{}] fd-exhaustion scenario: the lab app did not serve before the burst", rt));
+        return;
+    }
+    let mut old = Rlimit { cur: 0, max: 0 };
+    if unsafe { getrlimit(RLIMIT_NOFILE, &mut old) } != 0 {
+        r.inconclusive("getrlimit failed");
+        return;
+    }
+    let before = open_fds();
+    let headroom = 41u64;
+    let low = Rlimit { cur: (before + headroom).min(old.max), max: old.max };
+    if unsafe { setrlimit(RLIMIT_NOFILE, &low) } != 0 {
+        r.inconclusive("setrlimit failed");
+        return;
+    }
+    let mut held: Vec<TcpStream> = Vec::new();
+    let mut client_refused = 0;
+    for _ in 0..400 {
+        match TcpStream::connect(addr) {
+            Ok(s) => held.push(s),
+            Err(_) => {
+                client_refused += 1;
+                if client_refused >= 3 {
+                    break;
+                }
+                std::thread::sleep(Duration::from_millis(20));
+            }
+        }
+    }
+    std::thread::sleep(Duration::from_millis(300));
+    let during = open_fds();
+    let c = held.len() as u64;
+    let accepted = during.saturating_sub(before + 1).saturating_sub(c); // (+1: the /proc/self/fd handle itself is not counted twice; tolerate one either way)
+    let starved = c.saturating_sub(accepted);
+    drop(held);
+    let restored = unsafe { setrlimit(RLIMIT_NOFILE, &old) } == 0;
+    if !restored {
+        r.harness_error("could not restore RLIMIT_NOFILE".to_string());
+        return;
+    }
+    r.max("fd_exhaustion_client_connections", c);
+    r.max("fd_exhaustion_connections_the_server_could_not_accept", starved);
+    if client_refused < 3 || starved == 0 {
+        r.count("fd_exhaustion_not_reached", 1);
+        return;
+    }
+    std::thread::sleep(Duration::from_millis(300));
+    let ex = J::obj(vec![("descriptors_before", J::u(before)), ("soft_limit_during_burst", J::u(low.cur)), ("client_connections", J::u(c)), ("connections_left_unaccepted_at_exhaustion", J::u(starved)), ("runtime", J::s(rt))]);
+    if app.wait_returned(Duration::from_millis(200)).is_some() {
+        r.violation(&format!("C20/run-returned-without-signal:{}", rt), format!("[{}] run() returned although no shutdown signal was sent: {} connections exhausted the descriptor limit for a moment (accept failed for {} of them)", rt, c, starved), ex, replay.to_vec());
+        return;
+    }
+    let mut served = false;
+    for _ in 0..20 {
+        if ask(addr) {
+            served = true;
+            break;
+        }
+        std::thread::sleep(Duration::from_millis(100));
+    }
+    if !served {
+        r.violation(&format!("C20/stopped-serving-without-signal:{}", rt), format!("[{}] after a burst of {} connections exhausted the descriptor limit for a moment the server no longer answers, although no shutdown signal was sent", rt, c), ex, replay.to_vec());
+        return;
+    }
+    r.count("fd_exhaustion_survived_and_serving", 1);
+    let signal = app.take_signaller();
+    signal();
+    match app.wait_returned(Duration::from_secs(10)) {
+        Some(_) => r.count("fd_exhaustion_then_shutdown_returns", 1),
+        None => r.violation(&format!("C20/run-did-not-return:{}", rt), format!("[{}] run() had not returned 10 s after the signal (after an earlier descriptor exhaustion)", rt), ex, replay.to_vec()),
+    }
 }
